@@ -25,6 +25,7 @@ FIXED = [
  ("C05", "closing a transaction twice must not pool", "predecessor closed twice, then two transactions alive at the same time: Close put the object into the pool twice and both NewTransaction calls returned the same object (the bystander transaction turned into the probe)"),
  ("C19", "keeps the mandatory parts A and Z", "ctl:auditLogParts=+E on SecAuditLogParts ABCFHKZ: the record's parts became BCEFHK, the native record had no header section (transaction id) and no final boundary"),
  ("C05", "setvar:!tx.name (variable removal) panicked", "any rule with the documented removal form setvar:!tx.name that matches: nil macro dereference in setvarFn.Evaluate crashed ProcessRequestHeaders (reported as a predecessor / bystander panic by the C05 and C06 runs; the input-only class belongs to C07, which is not claimed)"),
+ ("C06", "debuglog With copies the parent", "data race (default build): the WAF's debug logger carries default fields (Default().With(Str(component)).With(Str(node))); concurrent NewTransaction calls derive their loggers with With(tx_id) and wrote into the spare capacity of the same field buffer (debuglog/default.go With; debug lines carry another transaction's id)"),
 ]
 OPEN = [
  {"property": "C06", "status": "open",
